@@ -32,6 +32,8 @@ func init() {
 
 func runC09(w *World, r *Report) {
 	hrRemedyChainWalksAll(w, r, "R6")
+	hrWildcardConstant(w, r, "R6")
+	r.Borrow(w, c11ClockKeepsMonotonicReading, map[string]string{"R4": "R6"})
 	hrTooManyRequestsStatus(w, r, "R6")
 	hrIdentityHasher(w, r, "R5")
 	hrRunOnRequestUpdates(w, r, "R6")
